@@ -326,6 +326,46 @@ func (in *Interp) appendBuiltin(a, b Val, rt types.Type, st *State) Val {
 	if al != nil && bl != nil {
 		an, aok := al.ConstInt()
 		bn, bok := bl.ConstInt()
+		// enough known capacity: append writes into the first operand's own
+		// backing array (which a caller may still hold) and returns a longer
+		// window of it
+		if sa, isS := a.(*SliceV); isS && aok && bok && sa.Cap != nil && bn > 0 {
+			cp, cok := sa.Cap.ConstInt()
+			lo, lok := sa.Lo.ConstInt()
+			if cok && lok && an+bn <= cp {
+				var vals []Val
+				okB := true
+				switch sb := b.(type) {
+				case *SliceV:
+					if blo, ok := sb.Lo.ConstInt(); ok {
+						for i := int64(0); i < bn; i++ {
+							vals = append(vals, in.loadPath(st, sb.Obj, joinPath(sb.Prefix, int(blo+i)), sb.Elem))
+						}
+					} else {
+						okB = false
+					}
+				case *StrV:
+					if sb.Const != nil {
+						for i := int64(0); i < bn; i++ {
+							vals = append(vals, constInt(int64((*sb.Const)[i]), 8, false))
+						}
+					} else {
+						okB = false
+					}
+				default:
+					okB = false
+				}
+				if okB {
+					for i, v := range vals {
+						in.storePath(st, sa.Obj, joinPath(sa.Prefix, int(lo+an)+i), sa.Elem, v)
+					}
+					if sa.Obj.Seq && sa.Prefix == "" && sa.Obj.N >= 0 && int(lo+an+bn) > sa.Obj.N && sa.Obj.Kind == "make" {
+						sa.Obj.N = int(lo + an + bn)
+					}
+					return &SliceV{Obj: sa.Obj, Prefix: sa.Prefix, Lo: sa.Lo, Len: constInt(an+bn, 64, true), Cap: sa.Cap, Elem: sa.Elem}
+				}
+			}
+		}
 		if aok && bok {
 			o := in.newObj(fmt.Sprintf("append#%d", in.nobj+1), "make", et, false)
 			o.Seq = true
